@@ -22,6 +22,8 @@ func init() {
 			"Decides these necessary conditions; does not decide datagram content equality, order or promptness.",
 		Run: runC12,
 		Mutants: []Mutant{
+			{Name: "timed-flush-outside-lock", File: "internal/utils/iocopy/copy.go", Rule: "R-C12-4",
+				Old: "\t\t\t\t\tbatchMu.Lock()\n\t\t\t\t\tflushLocked()\n\t\t\t\t\tbatchMu.Unlock()\n", New: "\t\t\t\t\tflushLocked()\n"},
 			{Name: "bidir-write-whole-buffer", File: "internal/utils/iocopy/copy.go", Rule: "R-C12-1",
 				Old: "nw, writeErr := connA.Write(buf[:nr])", New: "nw, writeErr := connA.Write(buf[:len(buf)])"},
 			{Name: "bidir-short-write-continues", File: "internal/utils/iocopy/copy.go", Rule: "R-C12-1",
